@@ -5,6 +5,7 @@
 #include <kit/base.hpp>
 #include <kit/expr.hpp>
 
+#include <unifex/any_sender_of.hpp>
 #include <unifex/dematerialize.hpp>
 #include <unifex/done_as_optional.hpp>
 #include <unifex/finally.hpp>
@@ -42,12 +43,12 @@ enum Kind {
   K_JUST, K_JUST_ERROR, K_JUST_DONE, K_LEAF,
   K_THEN, K_UPON_ERROR, K_UPON_DONE, K_LET_VALUE, K_LET_ERROR, K_LET_DONE,
   K_FINALLY, K_SEQUENCE, K_WHEN_ALL, K_STOP_WHEN, K_UNSTOPPABLE, K_VIA, K_ON,
-  K_WITH_TAG, K_MAT_DEMAT, K_DONE_AS_OPT, K_LVWSS,
+  K_WITH_TAG, K_MAT_DEMAT, K_DONE_AS_OPT, K_LVWSS, K_ANY_SENDER,
   K_COUNT
 };
 const char* kKindName[] = {"just", "just_error", "just_done", "leaf", "then", "upon_error", "upon_done", "let_value", "let_error",
                            "let_done", "finally", "sequence", "when_all", "stop_when", "unstoppable", "via", "on", "with_tag",
-                           "mat_demat", "done_as_opt", "lvwss"};
+                           "mat_demat", "done_as_opt", "lvwss", "any_sender_of"};
 
 struct Node {
   int id = 0;
@@ -466,6 +467,7 @@ void build_node(World* w, int id) {
         return unifex::then(unifex::done_as_optional(any_snd(a)), [k](std::optional<Val> o) { return o ? Val{o->get()} : Val{mix(k, -1)}; });
       });
       break;
+    case K_ANY_SENDER: n.impl = make_node([a] { return unifex::any_sender_of<Val>(any_snd(a)); }); break;
     case K_LVWSS:
       n.impl = make_node([a] { return unifex::let_value_with_stop_source([a](unifex::inplace_stop_source&) noexcept { return any_snd(a); }); });
       break;
@@ -497,6 +499,12 @@ int gen(World* w, int depth, int parent, int* budget) {
                                 K_FINALLY, K_SEQUENCE, K_WHEN_ALL, K_WHEN_ALL, K_STOP_WHEN, K_UNSTOPPABLE, K_VIA, K_ON, K_WITH_TAG,
                                 K_MAT_DEMAT, K_DONE_AS_OPT, K_LVWSS, K_JUST_ERROR, K_JUST_DONE};
     kind = kinds[draw((int)(sizeof kinds / sizeof kinds[0]))];
+    {
+      static int wrap = -1;
+      if (wrap < 0) wrap = (int)usim_param_int("wrap", 0);
+      int r = draw(wrap ? 4 : 24);
+      if (r == 0) kind = K_ANY_SENDER;  // type-erased wrapper as an identity node (C18): often with wrap=1, occasionally otherwise
+    }
     if (kind == K_LEAF && w->nleaves >= kMaxLeaves) kind = K_JUST;
   }
   int id = add_node(w, kind, parent);
@@ -763,6 +771,13 @@ void check_tap(World* w, TapRec* t, bool) {
       same_as(c, "transparent adaptor");
       break;
     }
+    case K_ANY_SENDER: {
+      TapRec* c = child_done(c0, n0);
+      if (!c || t->channel != c->channel || (t->channel != CH_DONE && t->payload != c->payload))
+        usim_report("c18.transparent", "any_sender_of (node %d) delivered %s %ld but the wrapped sender delivered %s %ld", t->node, ch_name(t->channel), t->payload,
+                    c ? ch_name(c->channel) : "nothing", c ? c->payload : 0);
+      break;
+    }
     case K_DONE_AS_OPT: {
       TapRec* c = child_done(c0, n0);
       if (!c) { fail("completed although its child has not"); break; }
@@ -798,14 +813,16 @@ void check_tap(World* w, TapRec* t, bool) {
 }
 
 // which tag / scheduler a leaf must see: root's, modified by with_tag / on on the path
-void expected_queries(World* w, int node, long* tag, int* sched) {
+void expected_queries(World* w, int node, long* tag, int* sched, int* alloc) {
   *tag = w->root_tag;
   *sched = w->root_ctx;
+  *alloc = w->root_alloc;
   // walk from root to node
   int path[kMaxNodes], np = 0;
   for (int x = node; x >= 0; x = w->nodes[x].parent) path[np++] = x;
   for (int i = np - 1; i >= 1; --i) {
     Node& p = w->nodes[path[i]];
+    if (p.kind == K_ANY_SENDER) { *tag = -1; *sched = -3; *alloc = -1; }  // a plain any_sender_of<> declares no query besides the stop token
     if (p.kind == K_WITH_TAG) *tag = p.k;
     if (p.kind == K_ON) *sched = p.ctx;
   }
@@ -945,11 +962,11 @@ void body_expr(void*) {
       if (r->started) KIT_CHECK(r->claimed, "c01.lost-completion", "leaf %d was started but never completed (nobody could complete it)", r->leaf);
       // C12: queries
       if (r->started) {
-        long tag; int sched;
-        expected_queries(w, r->node, &tag, &sched);
+        long tag; int sched, alloc;
+        expected_queries(w, r->node, &tag, &sched, &alloc);
         KIT_CHECK(r->tag_seen == tag, "c12.query", "leaf %d saw custom query value %ld through its receiver, expected %ld", r->leaf, r->tag_seen, tag);
         KIT_CHECK(r->sched_seen == sched, "c12.query", "leaf %d saw scheduler %d through its receiver, expected %d", r->leaf, r->sched_seen, sched);
-        KIT_CHECK(r->alloc_seen == w->root_alloc, "c12.query", "leaf %d saw allocator %d through its receiver, expected %d", r->leaf, r->alloc_seen, w->root_alloc);
+        KIT_CHECK(r->alloc_seen == alloc, "c12.query", "leaf %d saw allocator %d through its receiver, expected %d", r->leaf, r->alloc_seen, alloc);
         usim_probe("leaf probed receiver queries");
       }
       // C04: an external stop request that returned before the leaf completed must be visible on its token
